@@ -18,6 +18,7 @@ import (
 	"sync"
 	"time"
 
+	"github.com/itchio/wharf/archiver"
 	"github.com/itchio/wharf/pwr"
 	"github.com/itchio/wharf/verifhook"
 )
@@ -54,6 +55,8 @@ type hookRec struct {
 	jmu      sync.Mutex
 	cancelAt string
 	cancelA  int64
+	cancelB  int64 // -1: any
+	afterCancelUs int
 	cancel   context.CancelFunc
 	fired    bool
 }
@@ -65,7 +68,7 @@ func (h *hookRec) handle(point string, a, b int64) {
 		h.logs[role] = append(h.logs[role], hookEv{point, a})
 		h.mu.Unlock()
 	}
-	if h.cancelAt == point && h.cancelA == a {
+	if h.cancelAt == point && h.cancelA == a && (h.cancelB < 0 || h.cancelB == b) {
 		h.mu.Lock()
 		fire := !h.fired
 		h.fired = true
@@ -75,6 +78,10 @@ func (h *hookRec) handle(point string, a, b int64) {
 		h.mu.Unlock()
 		if fire {
 			h.cancel()
+			if role == "h" {
+				// the healer's helper goroutine reacts to the cancellation on its own schedule
+				time.Sleep(time.Duration(h.afterCancelUs) * time.Microsecond)
+			}
 		}
 	}
 	if h.jitter != nil {
@@ -136,7 +143,7 @@ func cmdC16(args []string) error {
 		if !*small && rng.Intn(4) == 0 {
 			run.NDirW = 1 + rng.Intn(2)
 		}
-		run.Consumer = []string{"guardian", "guardian", "writer", "printer", "failing"}[rng.Intn(5)]
+		run.Consumer = []string{"guardian", "guardian", "writer", "printer", "failing", "healer"}[rng.Intn(6)]
 		if *small {
 			run.Consumer = []string{"guardian", "printer", "failing"}[rng.Intn(3)]
 		}
@@ -161,6 +168,18 @@ func cmdC16(args []string) error {
 			run.Cancel = "async"
 		default:
 			run.Cancel = "none"
+		}
+		if run.Consumer == "healer" && run.NFiles > 0 && rng.Intn(2) == 0 {
+			// while the healer is handling the wound of the LAST damaged file (after its own cancellation check)
+			last := -1
+			for i, kd := range run.Kinds {
+				if kd != "ok" {
+					last = i
+				}
+			}
+			if last >= 0 {
+				run.Cancel = fmt.Sprintf("at:h.wound:%d:%d", int(pwr.WoundKind_FILE), last)
+			}
 		}
 		// a consumer much slower than the worker: the 1024-slot channel fills up and the worker blocks on it; then
 		// the consumer leaves (cancellation). Only the drain loop of the consumer goroutine lets Validate return.
@@ -240,11 +259,14 @@ func cmdC16(args []string) error {
 		runtime.GC()
 		base := runtime.NumGoroutine()
 		ctx, cancel := context.WithCancel(context.Background())
-		h := &hookRec{logs: run.Logs, record: *small, cancel: cancel, jitter: rand.New(rand.NewSource(int64(k)*7919 + envSeed()))}
+		h := &hookRec{logs: run.Logs, record: *small, cancel: cancel, cancelB: -1, afterCancelUs: []int{0, 50, 500, 2000}[rng.Intn(4)], jitter: rand.New(rand.NewSource(int64(k)*7919 + envSeed()))}
 		if strings.HasPrefix(run.Cancel, "at:") {
 			parts := strings.Split(run.Cancel, ":")
 			h.cancelAt = parts[1]
 			fmt.Sscanf(parts[2], "%d", &h.cancelA)
+			if len(parts) > 3 {
+				fmt.Sscanf(parts[3], "%d", &h.cancelB)
+			}
 		}
 		verifhook.SetHandler(h.handle)
 		vctx := &pwr.ValidatorContext{Consumer: nullConsumer()}
@@ -256,6 +278,17 @@ func cmdC16(args []string) error {
 			vctx.WoundsPath = wp
 		case "failing":
 			vctx.WoundsPath = filepath.Join(root, "no-such-dir", "wounds.pww") // os.Create fails at the first wound
+		case "healer":
+			zp := filepath.Join(root, "archive.zip")
+			zf, err := os.Create(zp)
+			if err != nil {
+				return err
+			}
+			if _, err := archiver.CompressZip(zf, sdir, nullConsumer()); err != nil {
+				return err
+			}
+			zf.Close()
+			vctx.HealPath = "archive," + zp
 		case "printer":
 			if slow {
 				vctx.Consumer.OnMessage = func(string, string) { time.Sleep(20 * time.Millisecond) }
